@@ -262,6 +262,67 @@ def work_struct(chunk, version):
     return ('structures', len(chunk), out)
 
 
+def refusal_cases():
+    """CIF 1.1 output: content that cannot be expressed, at every kind of place a CIF can hold it; cif_write must refuse"""
+    bad_values = [('list', ('l', [('s', 'a', False)]), {DISALLOWED_VALUE}), ('table', ('t', [('k', ('u',))]), {DISALLOWED_VALUE}),
+                  ('non-1.1 character in a string', ('s', 'caf\u00e9', True), {DISALLOWED_CHAR, DISALLOWED_VALUE}),
+                  ('control character in a string', ('s', 'a\x0bb', True), {DISALLOWED_CHAR, DISALLOWED_VALUE})]
+    cases = []
+    places = ['block scalar', 'second block scalar', 'block loop first packet', 'block loop last packet', 'frame scalar', 'second frame scalar', 'frame loop packet',
+              'frame after a good frame']
+    for what, v, codes in bad_values:
+        for place in places:
+            L = ['cif.new C0', 'blk.create C0 %s H0' % U('one'), 'blk.create C0 %s H1' % U('two'), 'frm.create H0 %s H2' % U('fa'), 'frm.create H0 %s H3' % U('fb'),
+                 'item.set H0 %s %s' % (U('_ok'), lit(('s', 'fine', False))), 'item.set H2 %s %s' % (U('_ok'), lit(('s', 'fine', False))),
+                 'item.set H3 %s %s' % (U('_ok'), lit(('s', 'fine', False))), 'item.set H1 %s %s' % (U('_ok'), lit(('s', 'fine', False)))]
+            if place.endswith('scalar'):
+                h = {'block scalar': 'H0', 'second block scalar': 'H1', 'frame scalar': 'H2', 'second frame scalar': 'H3'}[place]
+                L.append('item.set %s %s %s' % (h, U('_bad'), lit(v)))
+            elif place == 'frame after a good frame':
+                L.append('item.set H3 %s %s' % (U('_zzz_bad'), lit(v)))
+            else:
+                h = 'H2' if place.startswith('frame') else 'H0'
+                L += ['loop.create %s - 2 %s %s L0' % (h, U('_p'), U('_q')), 'pkt.create P0 0', 'pkt.set P0 %s %s' % (U('_p'), lit(('n', '1'))),
+                      'pkt.set P0 %s %s' % (U('_q'), lit(('s', 'good', False)))]
+                first = 'first' in place
+                if first:
+                    L += ['pkt.set P0 %s %s' % (U('_q'), lit(v)), 'loop.addpkt L0 P0', 'pkt.set P0 %s %s' % (U('_q'), lit(('s', 'good', False))), 'loop.addpkt L0 P0']
+                else:
+                    L += ['loop.addpkt L0 P0', 'pkt.set P0 %s %s' % (U('_q'), lit(v)), 'loop.addpkt L0 P0']
+            cases.append(('%s as %s' % (what, place), L, codes))
+    # names and codes outside the CIF 1.1 character set
+    for what, L in (('non-1.1 block code', ['cif.new C0', 'blk.create C0 %s H0' % U('bl\u00f6ck'), 'item.set H0 %s ?' % U('_a')]),
+                    ('non-1.1 frame code', ['cif.new C0', 'blk.create C0 %s H0' % U('b'), 'item.set H0 %s ?' % U('_a'), 'frm.create H0 %s H1' % U('fr\u00e4me'), 'item.set H1 %s ?' % U('_a')]),
+                    ('non-1.1 data name in a block', ['cif.new C0', 'blk.create C0 %s H0' % U('b'), 'item.set H0 %s ?' % U('_n\u00e4me')]),
+                    ('non-1.1 data name in a frame', ['cif.new C0', 'blk.create C0 %s H0' % U('b'), 'frm.create H0 %s H1' % U('f'), 'item.set H1 %s ?' % U('_n\u00e4me')]),
+                    ('non-1.1 data name in a frame loop', ['cif.new C0', 'blk.create C0 %s H0' % U('b'), 'frm.create H0 %s H1' % U('f'), 'loop.create H1 - 2 %s %s L0' % (U('_a'), U('_n\u00e4me')),
+                                                           'pkt.create P0 0', 'pkt.set P0 %s ?' % U('_a'), 'loop.addpkt L0 P0'])):
+        cases.append((what, L, {DISALLOWED_CHAR}))
+    return cases
+
+
+def work_refuse(chunk, version):
+    ex = worker_exec('fast')
+    out = []
+    for label, build, codes in chunk:
+        try:
+            a = ex.run(['reset'] + build + ['write C0 B0 v=1', 'write C0 B1 v=1'])
+        except Crash as c:
+            out.append(('crash', label, '%s %s' % (c, c.stderr[-1500:])))
+            ex = worker_exec('fast')
+            continue
+        bad = [x for x in a[1:1 + len(build)] if not isinstance(x, dict) or x.get('rc', 0) != 0]
+        if bad:
+            out.append(('driver', label, 'could not build the CIF: %r' % bad[:2]))
+            continue
+        for w in a[-2:]:
+            if not isinstance(w, dict) or w.get('rc') not in codes:
+                out.append(('not refused', label, 'cif_write in CIF 1.1 mode answered %r for a CIF holding a %s; one of %r expected (it must never succeed while dropping content)'
+                            % (w, label.split(' as ')[0], sorted(codes))))
+                break
+    return ('refusals', len(chunk), out)
+
+
 def run(pid, version, tier):
     rep = Report(pid, tier, 'exploration')
     L = int(os.environ.get('RT_L', (4 if tier == 'quick' else 5)))
@@ -281,6 +342,9 @@ def run(pid, version, tier):
     jobs += [(work_columns, c) for c in chunked(cols, 3)]
     st = structures(version)
     jobs += [(work_struct, c) for c in chunked(st, 2)]
+    if version == 1:
+        rc_ = refusal_cases()
+        jobs += [(work_refuse, c) for c in chunked(rc_, 6)]
     counts, nontrivial = {}, 0
     for res in pmap(_dispatch, jobs, (version,)):
         if isinstance(res, dict):
@@ -295,7 +359,7 @@ def run(pid, version, tier):
     return rep.finish({'evaluations': sum(counts.values()), 'distinct_nontrivial': nontrivial,
                        'rule': ('all strings of length <= %d over %r (plus non-ASCII samples), each stored quoted and - where the API allows - unquoted, as scalar item, as first and later loop value%s; '
                                 'long-line families (%d values) sweeping every writer threshold around 2048 and the fold window with blanks, semicolons, backslashes and supplementary characters at every offset; '
-                                'data names of 2030..2048 characters so that values of every presentation kind start at every late column; %d structures built by different API routes. '
+                                'data names of 2030..2048 characters so that values of every presentation kind start at every late column; %d structures built by different API routes; CIF 1.1: inexpressible content (list, table, non-1.1 characters in values, names and codes) in blocks, frames and loops must be refused. '
                                 'non-trivial = strings that cannot be presented bare, plus the long values and structures') % (
                                     L, ''.join(alpha), '' if version == 1 else ', list element, table value and table key', len(lv), len(st)),
                        'samples': [repr(s) for s in strings[200:203]] + [lv[5][0], st[0][0]],
